@@ -314,9 +314,11 @@ class DistributedRateLimiter(Entity):
                 self._global_limit,
             )
 
-            # Create forwarding event to downstream entity
+            # Create forwarding event to downstream entity.  The store round trips
+            # took simulated time: stamp the forward with the current time, not the
+            # arrival time (an event in the past is discarded by the engine).
             forward_event = Event(
-                time=now,
+                time=self.now if self._clock is not None else now,
                 event_type=f"forward::{event.event_type}",
                 target=self._downstream,
                 context=event.context.copy(),
